@@ -49,7 +49,8 @@ def run_one(item):
                     detail.append('failed, but not the expected obligation ' + exp)
                     caught = True
         if any('exit=2' in d for d in detail) and not caught:
-            return name, 'FAULT', '\n    '.join(detail), time.time() - t0
+            st = 'UNDECIDED(stale contract)' if any('STALE-CONTRACT' in d for d in detail) else 'FAULT'
+            return name, st, '\n    '.join(detail), time.time() - t0
         if meta.get('kind') == 'harmless':
             status = 'OK(no alarm)' if not caught and all('exit=0' in d for d in detail) else 'FALSE-ALARM'
         else:
